@@ -4,8 +4,8 @@
 package pgen
 
 import (
-	"math/rand"
 	"fmt"
+	"math/rand"
 	"sort"
 	"strconv"
 	"strings"
@@ -127,11 +127,11 @@ type Struct struct {
 }
 
 type Resources struct {
-	Threads  float64
-	MemGB    float64
-	VMemGB   float64
-	Special  string
-	Volatile string // "", "strict", "false"
+	Threads                                 float64
+	MemGB                                   float64
+	VMemGB                                  float64
+	Special                                 string
+	Volatile                                string // "", "strict", "false"
 	HasThreads, HasMem, HasVMem, HasSpecial bool
 }
 
@@ -219,16 +219,16 @@ type Pipeline struct {
 }
 
 type Program struct {
-	FileTypes   []string
-	FileTypeOf  []int // file index per filetype
-	Structs     []*Struct
-	Stages      []*Stage
-	Pipelines   []*Pipeline
-	Top         *Call
-	NFiles      int      // number of include files (0 => single file)
-	FileNames   []string // names of include files
-	Comments    bool
-	Seed        int64
+	FileTypes  []string
+	FileTypeOf []int // file index per filetype
+	Structs    []*Struct
+	Stages     []*Stage
+	Pipelines  []*Pipeline
+	Top        *Call
+	NFiles     int      // number of include files (0 => single file)
+	FileNames  []string // names of include files
+	Comments   bool
+	Seed       int64
 }
 
 // ShuffleCallOrder makes every pipeline body list its calls in another order
